@@ -379,21 +379,16 @@ class YP(object):
             name = term._name
             args = []
 
-        try:
-            remaining_clauses = self._find_predicates(name, len(args))[:]
-        except YPException:
-            return
-        i = 0
-        while i < len(remaining_clauses):
-            clause = remaining_clauses[i]
-            match = False
+        key = (name, len(args))
+        # enumerate the facts as they are now; remove each one from the facts as
+        # they are when it is reached, so that changes made meanwhile are kept
+        for clause in self._predicates_store.get(key, []):
+            if not any(c is clause for c in self._predicates_store.get(key, [])):
+                continue
             for cut in clause.match(args):
-                match = True
-                del remaining_clauses[i]
+                remaining_clauses = [c for c in self._predicates_store.get(key, []) if c is not clause]
                 self._update_predicate(self.atom(name), len(args), remaining_clauses)
                 yield False
-            if not match:
-                i += 1
 
     def retractall(self, term):
         '''retractall(Term) removes all dynamic facts matching Term, without backtracking over identical clauses.'''
@@ -540,10 +535,11 @@ class YP(object):
             clauses = []
         renaming = {}
         answer = Answer([_rename_variables(get_value(v), renaming) for v in values])
+        # publish a new list: suspended enumerations keep the list they started with
         if append:
-            clauses.append(answer)
+            clauses = clauses + [answer]
         else:
-            clauses.insert(0, answer)
+            clauses = [answer] + clauses
         self._update_predicate(name, len(values), clauses)
 
     def query(self, name, args):
